@@ -62,6 +62,13 @@ private:
 
   static void permuteCopy(const std::vector<Real>& A, const std::vector<size_t>& piv, std::vector<Real>& X)
   {
+    if (&A == &X)
+    {
+      // The output is the operand itself (solve(b, b)): permute a copy.
+      std::vector<Real> Ac(A);
+      permuteCopy(Ac, piv, X);
+      return;
+    }
     size_t piv_length = piv.size();
     if (piv_length != A.size())
       X.clear();
@@ -326,7 +333,17 @@ public:
     // Copy right hand side with pivoting
     size_t nx = B.getNumberOfColumns();
 
-    permuteCopy(B, piv, 0, nx - 1, X);
+    if (&B == &X)
+    {
+      // The output is the right-hand side itself (solve(B, B)): permute a copy,
+      // otherwise rows are overwritten before they are read.
+      RowMatrix<Real> Bc(B);
+      permuteCopy(Bc, piv, 0, nx - 1, X);
+    }
+    else
+    {
+      permuteCopy(B, piv, 0, nx - 1, X);
+    }
 
     // Solve L*Y = B(piv,:)
     for (size_t k = 0; k < n; k++)
